@@ -209,6 +209,37 @@ def theorems_in(path):
     return out
 
 
+def theorem_statements(path):
+    """{name: normalised statement text} for every theorem of a Lean file: the text from `theorem` up to the first `:=`
+    at bracket depth 0 (comments stripped, whitespace collapsed).  Used to pin statements (tools/pins/statements_*.json),
+    so that a theorem cannot be quietly weakened (an added hypothesis, a dropped conjunct) while keeping its name."""
+    src = strip_lean_comments(open(path).read())
+    lines = src.split("\n")
+    out = {}
+    for (n, s, e) in theorems_in(path):
+        body = "\n".join(lines[s - 1:e])
+        depth, i, cut = 0, 0, len(body)
+        while i < len(body) - 1:
+            c = body[i]
+            if c in "([{⟨":
+                depth += 1
+            elif c in ")]}⟩":
+                depth -= 1
+            elif c == ":" and body[i + 1] == "=" and depth <= 0:
+                cut = i
+                break
+            elif c == "|" and depth <= 0 and body[:i].rstrip().endswith("\n") is False and body[i - 1] == "\n":
+                cut = i   # pattern-matching definition: `theorem foo : stmt\n| ...`
+                break
+            i += 1
+        out[n] = " ".join(body[:cut].split())
+    return out
+
+
+def statement_pins_path(module):
+    return os.path.join(VERIF, "tools", "pins", "statements_%s.json" % module.split(".")[-1])
+
+
 def namespace_of(path):
     src = strip_lean_comments(open(path).read())
     m = re.search(r"^namespace\s+(\S+)", src, re.M)
@@ -408,7 +439,31 @@ class Check:
                     self.fail("theorem:" + n, "axioms:" + n,
                               "theorem %s depends on disallowed axioms %s" % (n, ax), {"axioms": ax}, False)
         self.extra.setdefault("theorems", {})[module] = len(ths)
+        self._check_statement_pins(module, path, ths)
         return rc == 0 and not hits, out
+
+    def _check_statement_pins(self, module, path, ths):
+        """Statements are pinned (tools/pin_statements.py): a theorem whose statement text differs from its pin, or a
+        pinned theorem that disappeared, fails here even though everything still elaborates."""
+        import hashlib
+        pp = statement_pins_path(module)
+        if not os.path.exists(pp):
+            self.extra.setdefault("statements_unpinned_modules", []).append(module)
+            return
+        pins = json.load(open(pp))
+        cur = theorem_statements(path)
+        changed = [n for n in pins if n in cur and hashlib.sha256(cur[n].encode()).hexdigest() != pins[n]]
+        gone = [n for n in pins if n not in cur]
+        new = [n for n in cur if n not in pins]
+        name = "statements-pinned:%s: %d theorem statements are textually what was pinned" % (module.split(".")[-1], len(pins))
+        self.oblige(name, "audit", not changed and not gone, {"changed": changed[:10], "disappeared": gone[:10]} if (changed or gone) else None)
+        if new:
+            self.extra.setdefault("statements_unpinned", {})[module] = new[:40]
+        for n in changed[:20]:
+            self.fail(name, "statement-changed:" + n, "the statement of theorem %s is not the pinned one (re-pin with tools/pin_statements.py "
+                      "only after reviewing that it was not weakened)" % n, {"theorem": n, "current_statement": cur[n][:1500]}, False)
+        for n in gone[:20]:
+            self.fail(name, "statement-disappeared:" + n, "pinned theorem %s no longer exists in %s" % (n, module), {"theorem": n}, False)
 
     def leanchecker(self, module):
         t = time.time()
